@@ -3,7 +3,7 @@
     write_all_vectored is the crate's copy of std's function (vectored_write_polyfill.rs), run
     against a sink whose answers follow an arbitrary schedule. *)
 From Coq Require Import List NArith.
-Require Import Base VectoredWrite VectoredWriteProofs.
+Require Import Base Schema VectoredWrite VectoredWriteProofs Container WriterScheduleProofs.
 Import ListNotations.
 
 (* EVERY schedule of partial writes and interruptions: as long as the first n answers are
@@ -67,3 +67,43 @@ Example C16_run :
     [Accept 1; Interrupted; Accept 2; Interrupted; Accept 100] [9]%N
   = (WOk, [9; 1; 2; 3; 4; 5]%N, [Accept 100]).
 Proof. vm_compute. reflexivity. Qed.
+
+(* THE WRITER AS A WHOLE (writer/mod.rs: header write, every serialize / push / finish_block / into_inner
+   / drop, any block codec, plain or vectored sink): for every schedule of partial writes and
+   interruptions ([benign_schedule]: only Accept / Interrupted answers, not interrupting forever) the
+   per-call outcomes and the byte stream the sink ends up with are identical to those of a sink that
+   accepts everything at once -- nothing lost, duplicated or reordered. (FUEL_SINK: the model's bound on
+   the retry loop; the hypothesis says the file is smaller than it.) *)
+Theorem C16_writer_schedule : forall enc Sc approx sync vectored vectored0 json codec user ops sched o0 st0 outs st0F,
+  benign_schedule sched ->
+  wbuild sync json codec user [] = (o0, st0) ->
+  wrun enc Sc approx sync vectored0 st0 ops = (outs, st0F) ->
+  (length (w_sink st0F) + interruptions sched < FUEL_SINK)%nat ->
+  exists st stF,
+    wbuild sync json codec user sched = (o0, st) /\
+    wrun enc Sc approx sync vectored st ops = (outs, stF) /\
+    same st st0 /\ same stF st0F /\ w_sink stF = w_sink st0F.
+Proof. exact wrun_schedule_independent_total. Qed.
+
+(* a hard error or a zero-length write while data remains: the header write or the FIRST writer call
+   during which it happens returns an error (never Ok), everything before it behaved as on the
+   well-behaved sink, and what the sink holds is a prefix of what would have been written ([fails_at]
+   / [sfail]; into_inner is special: on its error path the writer is dropped and Drop flushes the
+   pending block once more, see Examples.into_inner_retry_duplicates) *)
+Theorem C16_writer_error_surfaces : forall enc Sc approx sync vectored1 vectored2 json codec user ops s1 s2 I o2 st2 outs st2F,
+  tame s1 -> (interruptions s1 <= I)%nat ->
+  benign_schedule s2 -> (interruptions s2 <= I)%nat ->
+  wbuild sync json codec user s2 = (o2, st2) ->
+  wrun enc Sc approx sync vectored2 st2 ops = (outs, st2F) ->
+  growth_ok I 0 ((o2, N.of_nat (length (w_sink st2))) :: outs) ->
+  exists o1 st1,
+    wbuild sync json codec user s1 = (o1, st1) /\
+    ((o1 = WRErr /\ o2 = WROk /\ w_gone st1 = true /\
+      exists rest, w_sink st2 = w_sink st1 ++ rest /\ rest <> [] /\ hit_bad s1 (w_sched st1)) \/
+     (o1 = o2 /\ same st1 st2 /\ only_benign s1 (w_sched st1) /\
+      ((exists st1F, wrun enc Sc approx sync vectored1 st1 ops = (outs, st1F) /\ same st1F st2F /\ only_benign s1 (w_sched st1F)) \/
+       fails_at enc Sc approx sync vectored1 vectored2 st1 st2 ops outs))).
+Proof. exact wrun_error_surfaces. Qed.
+Check Examples.independent_example.
+Check Examples.error_example.
+Check Examples.into_inner_retry_duplicates.
